@@ -586,6 +586,41 @@ def runR (ts : List String) : Verdict :=
           ++ (if hv.contains "status" && nsamp == npre + 1 && npre > 0 then ["lengths-boundary"] else [])
           ++ (if hv.contains "status" && !legalLengths npre nsamp then ["lengths-illegal"] else []))
 
+/-! ### a source started while a save is in progress
+
+The configuration store is guarded by one lock that `saveState` holds for its whole duration and that the
+start of a source (`PrepareRun`) takes to read the saved trigger settings: a start that arrives during a
+save is serialised after it — it never skips the read.  In the model the start therefore reads viper's
+settings as the save leaves them. -/
+
+/-- what a starting source reads for `tag` from the configuration store; `inSave` = a save is in progress
+when the start arrives (the start blocks on the lock and reads afterwards) -/
+def startRestore (low : String → String) (c : Cache) (inSave : Bool) (tag : Tag) : Option Msg :=
+  (savedView low (if inSave then (saveStep low c).vip else c.vip)).lookup (low tag)
+
+def runT (ts : List String) : Verdict :=
+  let p : P (Bool × Bool × Bool × Bool) := do
+    P.kw "nch"; let _ ← P.nat
+    P.kw "ngroups"; let _ ← P.nat
+    P.kw "nset"; let _ ← P.nat
+    P.kw "site"; let _ ← P.tok
+    P.kw "h"; let _ ← P.tok
+    P.kw "OUT"
+    P.kw "waited"; let w ← P.bool
+    P.kw "started"; let st ← P.bool
+    P.kw "trig"; let tr ← P.bool
+    P.kw "persisted"; let pe ← P.bool
+    pure (w, st, tr, pe)
+  match P.run p ts with
+  | .error e => .bad e
+  | .ok (w, st, tr, pe) =>
+    if !st then .viol "C16:start-during-save-hangs a source started during a configuration save did not come up after the save had finished"
+    else if !tr then
+      .viol "C16:saved-triggers-not-restored a source started while a configuration save was in progress came up without the saved trigger settings"
+    else if !pe then
+      .viol "C16:saved-triggers-overwritten after a source was started during a save, the configuration file no longer holds the saved trigger settings"
+    else .ok (["T", "start-during-save"] ++ (if w then ["start-waited-for-save"] else []))
+
 /-! ### facts -/
 
 def nameTok : Name → String
@@ -675,6 +710,7 @@ def runLine (ts : List String) : Verdict :=
     | .error e => .bad e
     | .ok (i, o) => runK i o
   | "R" :: r => runR r
+  | "T" :: r => runT r
   | _ => .bad "unknown case kind"
 
 end DastardV.C16
